@@ -60,11 +60,22 @@ def spacetime_batch_obligations(G):
                     tvec = AT((rt,), np.array(T(rt), dtype=object))
                     x = batch_x(d, rx)
                     dx = border(d, rb) if with_border else None
+                    over = {}
+                    if d == 1 and with_border:
+                        # in 1-D the generator's own border_batch is used: the border is the stored pair of end points
+                        over['omega_border'] = AT((2,), np.array([X(0, "facet0"), X(0, "facet1")], dtype=object))
                     gen = G.nonstatio(d, border=with_border, cartesian=cart, temporal_batch_size=SymDim(rt),
-                                      omega_batch_size=SymDim(rx))
+                                      omega_batch_size=SymDim(rx), **over)
                     holder = {}
-                    g = gen.replace_fields({'inside_batch': lambda: (holder['g'], x), 'border_batch': lambda: (holder['g'], dx),
-                                            'temporal_batch': lambda: (holder['g'], tvec)})
+                    stubs = {'inside_batch': lambda: (holder['g'], x), 'border_batch': lambda: (holder['g'], dx),
+                             'temporal_batch': lambda: (holder['g'], tvec)}
+                    if d == 1 and with_border:
+                        del stubs['border_batch']
+                    g = gen.replace_fields(stubs)
+                    if d == 1 and with_border:
+                        # one border row whatever the batch sizes: its product with the time batch has one row per time
+                        _, bb1 = g.border_batch()
+                        check_tensor(bb1, (1, 1, 2), lambda i: X(0, f"facet{i[2]}"), "1-D border batch")
                     holder['g'] = g
                     new, batch = g.get_batch()
                     tx = batch.fields['times_x_inside_batch']
